@@ -35,8 +35,8 @@ STUBS = ['ScriptedServer socket (SMTP/LMTP framing automaton: one scripted '
          'per RCPT it answered with 2xx)', 'slimta.logging -> no-ops']
 ASSUMPTIONS = ['reply text first characters are not white space']
 CELL_BUDGET_S = {'quick': 240, 'thorough': 2400}
-SAMPLE_P = 0.004
-MAX_WITNESSES = 3
+SAMPLE_P = 0.02
+MAX_WITNESSES = 6
 MAX_DECISIONS = 40000
 
 
